@@ -203,8 +203,14 @@ func allShapes() []PShape {
 func shapesDoc(shapes []PShape) J {
 	paths := J{}
 	for _, s := range shapes {
-		paths[s.Path()] = J{"get": J{"operationId": s.OpID(), "parameters": []interface{}{s.Param()},
+		pi := J{"get": J{"operationId": s.OpID(), "parameters": []interface{}{s.Param()},
 			"responses": J{"204": J{"description": "d"}}}}
+		if s.Loc != "path" && s.ID%3 == 0 {
+			// the path item declares the same parameter (name and location) differently — other type, opposite
+			// requiredness: the operation's own declaration replaces it in every respect
+			pi["parameters"] = []interface{}{J{"name": s.Param()["name"], "in": s.Loc, "required": !s.Required, "schema": J{"type": "boolean"}}}
+		}
+		paths[s.Path()] = pi
 	}
 	return J{"openapi": "3.0.3", "info": J{"title": "t", "version": "1"}, "paths": paths,
 		"components": J{"schemas": J{"Obj": J{"type": "object", "required": []interface{}{"a", "b"}, "properties": J{"a": J{"type": "string"}, "b": J{"type": "string"}}}}}}
